@@ -19,7 +19,11 @@ func main() {
 			"and seeded random ones, audited by a relational tiling auditor (order, one run per slot, block_num adjacent slots per validator and term, start distances = "+
 			"period / alternate / term interval, all +-1 ms); (b) CheckMinerMatch of the same instances (direct and behind PluggableConsensus) for every ms of the audited terms x "+
 			"{each validator, an outsider, empty proposer} x both ns edges, plus a black-box run audit of what was accepted; xpoa also with a contract-edited validator set of "+
-			"another size; (c) single: proposer x public key x signature x id relation x timestamp matrix; (d) pow: IsProofed around every target word, CheckMinerMatch on stub "+
+			"another size; (b2) elected validator sets: tdpos instances over generated nominate / vote records (ties inside the top K and across the cut, all-equal tables, revoked ballots, "+
+			"revoked nominations, too few candidates, records of another version) on chains with the tip in terms 1..3: every stored record table gives the same verdict for the same "+
+			"block on repeated calls and on fresh instances, the accepted producer per slot is the one an election model written from the records entitles (who wins among equal "+
+			"ballots is not prescribed, only that it is a function of the records), and a failing snapshot read (each key of the election in turn, CreateSnapshot) never makes a "+
+			"block accepted that the fault-free evaluation refuses; (c) single: proposer x public key x signature x id relation x timestamp matrix; (d) pow: IsProofed around every target word, CheckMinerMatch on stub "+
 			"chains (default region, keep, adjust with spans at/around both clamps, after adjustment, hardest-target clamp; id at target / +-1, timestamp vs parent, wrong words, "+
 			"bad signatures) against an independent Bitcoin-style rule, GetCompact / SetCompact for 256 exponents x boundary mantissas + random words / numbers against an "+
 			"independent codec. A case = one configuration (a, b), one matrix cell (c), one chain scenario (d); non-trivial = more than one slot per term / both accept and refuse seen")
@@ -45,6 +49,7 @@ func main() {
 		fmt.Fprintf(os.Stderr, "c16: %-10s %6.1fs  violations so far %d\n", name, time.Since(t).Seconds(), r.NumViolations())
 	}
 	step("tdpos", func() { runTdpos(r) })
+	step("elections", func() { runElections(r) })
 	step("xpoa", func() { runXpoa(r) })
 	step("single", func() { runSingle(r) })
 	step("isproofed", func() { runIsProofed(r) })
@@ -65,6 +70,21 @@ func main() {
 	r.Floor("tdpos.accept.refused.outsider", 10000)
 	r.Floor("tdpos.accept.via-pluggable-configs", 1000)
 	r.Floor("tdpos.elected.configs", 500)
+	r.Floor("tdpos.election.scenarios", 300)
+	r.Floor("tdpos.election.scenarios|tie-inside-top-k", 30)
+	r.Floor("tdpos.election.scenarios|tie-across-cut", 30)
+	r.Floor("tdpos.election.scenarios|tie-inside-top-k-and-across-cut", 10)
+	r.Floor("tdpos.election.scenarios|no-tie-in-reach-of-top-k", 30)
+	r.Floor("tdpos.election.scenarios|fallback|too-few-candidates", 20)
+	r.Floor("tdpos.election.scenarios|fallback|no-nominate-record", 10)
+	r.Floor("tdpos.election.candidates|all-ballots-revoked", 50)
+	r.Floor("tdpos.election.candidates|nomination-revoked-vote-record-left", 50)
+	r.Floor("tdpos.election.accepted.elected-producer", 1000)
+	r.Floor("tdpos.election.determinism.blocks-asked-5-times", 20000)
+	r.Floor("tdpos.election.read-fault.hit|nominate-record", 200)
+	r.Floor("tdpos.election.read-fault.hit|vote-record", 500)
+	r.Floor("tdpos.election.read-fault.hit|create-snapshot", 200)
+	r.Floor("tdpos.election.read-fault.entitled-refused-during-fault", 1000)
 	r.Floor("xpoa.tiling.configs", 96)
 	r.Floor("xpoa.accept.configs|init", 90)
 	r.Floor("xpoa.accept.configs|edited", 40)
@@ -90,7 +110,8 @@ func main() {
 	r.Floor("compact.set.negative", 100)
 	r.Exhaustive(false)
 	r.Assume("timestamps before the configured tdpos init timestamp are outside the audited domain (the schedule is undefined there; see counter tdpos.observed.*)")
-	r.Assume("validator sets are supplied by stub ledgers: initial list (tdpos, xpoa) and a contract-edited list read from a snapshot (xpoa); vote-driven tdpos elections belong to other checks")
+	r.Assume("validator sets are supplied by stub ledgers: initial list (tdpos, xpoa) and a contract-edited list read from a snapshot (xpoa), nominate / vote records served by the stub snapshot reader (tdpos elections; the records are generated in the form the $tdpos contract writes them, the contract calls themselves belong to C19); the records are the same at every height >= 1 of a scenario, so the oracle does not depend on which height's snapshot an election reads")
+	r.Assume("the producing side of tdpos (CompeteMaster) reads the wall clock and is not driven; the validator list a freshly created instance reports (GetCurrentValidatorsInfo) stands for it")
 	r.Assume("expectedPeriod of pow is in seconds (as in the shipped genesis files), block timestamps are whole seconds plus a common sub-second offset")
 	r.Assume("numbers that have no compact word (size byte would exceed 255) are outside the domain of GetCompact")
 	r.Assume("chained-bft justification checks of xpos / xpoa+bft blocks are C14's subject; the instances here run without bft_config")
